@@ -106,7 +106,28 @@ class list_(list, metaclass=_Meta):
     def __new__(cls, x=()):
         if _b.isinstance(x, SymList):
             return x.copy()
+        if _b.isinstance(x, SymSet):
+            return _list_of_symset(x)
         return list(x)
+
+
+def _list_of_symset(ss):
+    """list(set) (was OUT-OF-REACH: iteration over a symbolic set): a free-standing snapshot of the set.
+    `for k in list(s)` under a loop contract then enumerates the snapshot in arbitrary order (set mode);
+    membership and len() work; indexing the result is not modelled (engine error -> OUT-OF-REACH)."""
+    return ss.copy()
+    c = _c()    # (sequence model kept for reference; its quantified axioms made z3 answer `unknown`)
+    ety = ss._ty.elem
+    sq = c.fresh("setlist", z3.SeqSort(ety.sort()))
+    ss._ty.assume_wf(ss.term)
+    c.assume(z3.Length(sq) == ss._ty.dt.size(ss.term))
+    i, j = c.fresh("li", z3.IntSort()), c.fresh("lj", z3.IntSort())
+    c.assume(z3.ForAll([i, j], z3.Implies(z3.And(0 <= i, i < j, j < z3.Length(sq)), sq[i] != sq[j])))
+    k = c.fresh("lk", ety.sort())
+    c.assume(z3.ForAll([k], z3.Select(ss._ty.dt.dom(ss.term), k) == z3.Contains(sq, z3.Unit(k))))
+    i2 = c.fresh("li2", z3.IntSort())
+    c.assume(z3.ForAll([i2], z3.Implies(z3.And(0 <= i2, i2 < z3.Length(sq)), z3.Select(ss._ty.dt.dom(ss.term), sq[i2]))))
+    return SymList(Box(sq), ety)
 
 
 class dict_(dict, metaclass=_Meta):
@@ -233,15 +254,89 @@ def _isnum(x):
 
 
 def min_(*args, key=None, default=_b.object):
+    r = _map_extreme(False, args, key, default)
+    if r is not _NO:
+        return r
     if not any(map(_needs_sym, args)) and not key:
         return min(*args) if default is _b.object else min(*args, default=default)
     return _pick(False, args, key, default)
 
 
 def max_(*args, key=None, default=_b.object):
+    r = _map_extreme(True, args, key, default)
+    if r is not _NO:
+        return r
     if not any(map(_needs_sym, args)) and not key:
         return max(*args) if default is _b.object else max(*args, default=default)
     return _pick(True, args, key, default)
+
+
+# ---- min/max over the values of a symbolic dict: `min(d.values(), key=f)` and `min(f(v) for v in d.values())`
+_NO = _b.object()
+
+
+def _genexpr_apply(gen, x):
+    """the value a (not yet started, unfiltered) generator expression yields for the single input x"""
+    import types as _pt
+    code = gen.gi_code
+    cells = tuple(_pt.CellType(gen.gi_frame.f_locals[n]) for n in code.co_freevars)
+    g = _pt.FunctionType(code, gen.gi_frame.f_globals, closure=cells or None)(iter([x]))
+    out = list(g)
+    if len(out) != 1:
+        raise OutOfReach("filtered generator expression under min/max over a symbolic dict")
+    return out[0]
+
+
+def _map_extreme(cmp_gt, args, key, default):
+    """An ARBITRARY extremal element (min/max return the first one in iteration order): a witness key
+    k* of the dict with  forall k in d: not f(d[k]) < f(d[k*])  (resp. >).  Only d.values()."""
+    import types as _pt
+    from .heap import _MapIter, Ref
+    if len(args) != 1:
+        return _NO
+    it, gen = args[0], None
+    if _b.isinstance(it, _pt.GeneratorType) and it.gi_frame is not None and key is None:
+        inner = it.gi_frame.f_locals.get(".0")
+        if _b.isinstance(inner, _pt.GeneratorType) and inner.gi_frame is not None \
+                and inner.gi_code is _MapIter.__iter__.__code__:
+            gen, it = it, inner.gi_frame.f_locals.get("self")
+    if not _b.isinstance(it, _MapIter) or it.mode != "v":
+        return _NO
+    d = it.d
+    mty = d._ty
+    if z3.is_int_value(z3.simplify(mty.dt.size(d.term))) and mty.ordered:
+        return _NO                                    # concrete ordered dict: the generic path iterates it
+    c = _c()
+    mty.assume_wf(d.term)
+    if not c.branch(mty.dt.size(d.term) > 0, site="extreme-empty"):
+        if default is not _b.object:
+            return default
+        raise ValueError("min()/max() arg is an empty sequence")
+    f = (lambda v: _genexpr_apply(gen, v)) if gen is not None else (key if key is not None else (lambda v: v))
+    m = d.term
+    kt = c.fresh("extreme_key", mty.key.sort())
+    c.assume(z3.Select(mty.dt.dom(m), kt))
+    c.note_term(kt)
+    best = mty.val.wrap(z3.Select(mty.dt.val(m), kt), d._valloc(kt))
+    bk = f(best)
+
+    def elem(kq):
+        t = z3.Select(mty.dt.val(m), kq)
+        vty = mty.val
+        if _b.isinstance(vty, Ref):
+            if vty.nullable or vty.variants:
+                raise OutOfReach("min/max over dict values of nullable / variant reference type")
+            return ObjProxy(t, vty.cls)
+        if vty in (T.Int, T.Real, T.Bool, T.Str):
+            return vty.wrap(t)
+        raise OutOfReach(f"min/max over dict values of type {vty.name}")
+
+    from .spec import forall, implies, Not
+    c.assume_value(forall(mty.key, lambda kq: implies(
+        mk_bool(z3.Select(mty.dt.dom(m), kq.t if hasattr(kq, "t") else kq._ref)),
+        Not((f(elem(kq.t if hasattr(kq, "t") else kq._ref)) > bk) if cmp_gt else (f(elem(kq.t if hasattr(kq, "t") else kq._ref)) < bk))),
+        "extreme"))
+    return bk if gen is not None else best
 
 
 def _needs_sym(x):
@@ -257,10 +352,36 @@ def sum_(it, start=0):
         n = z3.simplify(it._len())
         if not z3.is_int_value(n):
             raise OutOfReach("sum over a sequence of symbolic length needs a loop contract")
+    src = _genexpr_source(it)
+    if src is not None and not z3.is_int_value(z3.simplify(src._len())):
+        # sum(f(x) for x in <list of symbolic length>): over-approximated by an ARBITRARY number of the
+        # kind of the first term (sound: nothing is known about the total); empty list -> start
+        first = next(it, _b.object)
+        if first is _b.object:
+            return start
+        if _b.isinstance(first, (int, SymInt, SymBool)) and _b.isinstance(start, (int, SymInt)):
+            return T.Int.fresh("sum_any")
+        if _b.isinstance(first, (int, float, _SymNum)) and _b.isinstance(start, (int, float, _SymNum)):
+            return T.Real.fresh("sum_any")
+        raise OutOfReach("sum of non-numeric terms over a sequence of symbolic length")
     r = start
     for x in it:
         r = r + x
     return r
+
+
+def _genexpr_source(it):
+    """the SymList a not-yet-started generator expression iterates directly, else None"""
+    import types as _pt
+    if not _b.isinstance(it, _pt.GeneratorType) or it.gi_frame is None:
+        return None
+    inner = it.gi_frame.f_locals.get(".0")
+    from .vec import SymVec
+    if _b.isinstance(inner, _pt.GeneratorType) and inner.gi_frame is not None \
+            and inner.gi_code in (SymList.__iter__.__code__, SymVec.__iter__.__code__):
+        s = inner.gi_frame.f_locals.get("self")
+        return s if _b.isinstance(s, (SymList, SymVec)) else None
+    return None
 
 
 def any_(it):
@@ -391,6 +512,25 @@ def hash_(x):
     return hash(x)
 
 
+class _SymBin:
+    """bin(x) of a symbolic int: only `.count("1")` (population count, uninterpreted) is modelled"""
+
+    def __init__(self, x):
+        self.x = x
+
+    def count(self, sub):
+        if sub != "1":
+            raise OutOfReach("bin(symbolic).count of something other than '1'")
+        from . import bits
+        return bits.popcount(self.x)
+
+
+def bin_(x):
+    if _b.isinstance(x, SymInt):
+        return _SymBin(x)
+    return bin(x)
+
+
 def divmod_(a, b):
     if is_sym(a) or is_sym(b):
         return a // b, a % b
@@ -445,6 +585,6 @@ SHIMS = {
     "int": int_, "float": float_, "bool": bool_, "str": str_, "list": list_, "dict": dict_, "set": set_,
     "tuple": tuple_, "len": len_, "abs": abs_, "min": min_, "max": max_, "sum": sum_, "any": any_,
     "all": all_, "round": round_, "range": range_, "sorted": sorted_, "enumerate": enumerate_,
-    "hash": hash_, "divmod": divmod_,
+    "hash": hash_, "divmod": divmod_, "bin": bin_,
     "__pyvc_is": is_, "__pyvc_is_not": is_not_, "__pyvc_fstr": fstr_,
 }
